@@ -84,6 +84,7 @@ def main(argv=None):
     results = runner.run_jobs(tasks, seed, (prop,), args.procs)
     known = load_known()
     n_obl = n_ok = 0
+    known_entries = 0
     violations = []
     known_hits = {}
     undecided = []
@@ -113,8 +114,13 @@ def main(argv=None):
         for o in r["obls"]:
             if prop not in o["prop"].split(","):
                 continue
-            n_obl += o["n"]
-            jn += o["n"]
+            nn = o["n"]
+            if o["refuted"] and match_known(known, prop, r["job"], o["name"]) is not None:
+                # entries refuted under a listed known finding are reported separately, not as obligations of the proof
+                nn = o["n"] - len(o["refuted"])
+                known_entries += len(o["refuted"])
+            n_obl += nn
+            jn += nn
             solver_secs += o["secs"]
             kinds[o["kind"]] = kinds.get(o["kind"], 0) + o["n"]
             bad = len(o["refuted"]) + len(o["undecided"])
@@ -192,6 +198,7 @@ def main(argv=None):
                            "input values at each enumerated configuration",
                 shim_crosscheck=dict(components_checked=xc_checked, worst_relative_error=xc_worst),
                 known_findings_hit=sorted(known_hits),
+                obligations_refuted_under_known_findings=known_entries,
                 undecided=[dict(job=j, obligation=o["name"], entries=len(o["undecided"])) for j, o in undecided][:50],
                 checker_problems=[dict(job=j, error=e) for j, e, _ in errors][:50],
                 samples=samples or [dict(note="no discharged obligation with a printable sample")],
